@@ -258,7 +258,9 @@ def explore(ctx):
         if multi:
             vfeat = (i // 6) % 2 == 0
         # class kerning: a class/class pair and a glyph/class exception, values differing per master
-        groups = {"public.kern1.L": [names[0]], "public.kern2.R": [names[1], names[2]]}
+        # (a third member of the second-side class where there is one: the class value stays visible on a pair that has no
+        # exception in any master)
+        groups = {"public.kern1.L": [names[0]], "public.kern2.R": [names[1], names[2]] + ([names[3]] if len(names) > 3 and names[3] != "acutecomb" else [])}
         for k, m in enumerate(masters):
             m["groups"] = dict(groups)
             m["kerning"][("public.kern1.L", "public.kern2.R")] = Fr(-50 - 15 * k)
@@ -291,7 +293,7 @@ def explore(ctx):
                     g["anchors"] = [(a[0], Fr(a[1]) + fr[(k + j) % 4], Fr(a[2]) - fr[(k + 2 * j + 1) % 4]) if a[0] in ("top", "_top") else a
                                     for j, a in enumerate(g["anchors"])]
             ctx.klass("fractional anchors")
-        if vfeat and not nonmono and rng.random() < 0.6:
+        if vfeat and not nonmono and (rng.random() < 0.6 or i % 2 == 1):
             # ... and 0 in one non-default master (with merged per-master layout the pair sets must be identical)
             masters[rng.randrange(1, n)]["kerning"][("public.kern1.L", "public.kern2.R")] = Fr(0)
         propagate = (i % 5 == 3) and any(g["components"] for g in base["glyphs"])
